@@ -30,6 +30,22 @@ package version
 //@   loop 1 invariant calls(s.cache.GetReader) == old(calls(s.cache.GetReader)) + rangeindex + 1 && calls(s.cache.ReleaseReaders) == old(calls(s.cache.ReleaseReaders))
 //@   loop 1 invariant forall(i, 0, len(files), files[i] != nil)
 //@ end
+//@ # FindReaders (the read path of the metric-data and index readers): every reader it obtains is remembered by the snapshot and
+//@ # given back exactly once, by Close - never by FindReaders itself, not even on its error path (a reader released twice
+//@ # drops the cache entry's count below the number of snapshots that hold it: the file is unmapped under an open snapshot)
+//@ func snapshot.FindReaders
+//@   prop C02 C15
+//@   arith math
+//@   requires s.version != nil && s.cache != nil
+//@   modifies s.readers
+//@   ensures[readers_are_given_back_by_Close_only] calls(s.cache.ReleaseReaders) == old(calls(s.cache.ReleaseReaders))
+//@   ensures[every_reader_handed_out_is_remembered_for_Close] len(s.readers) - old(len(s.readers)) >= len(result0)
+//@   ensures[no_error_means_every_candidate_file_was_consulted] result1 == nil ==> calls(s.cache.GetReader) == old(calls(s.cache.GetReader)) + len(versionFiles(s.version, key))
+//@   loop 1 invariant rangeindex >= -1 && rangeindex < len(files) && files == versionFiles(s.version, key)
+//@   loop 1 invariant calls(s.cache.GetReader) == old(calls(s.cache.GetReader)) + rangeindex + 1 && calls(s.cache.ReleaseReaders) == old(calls(s.cache.ReleaseReaders))
+//@   loop 1 invariant forall(i, 0, len(files), files[i] != nil)
+//@   loop 1 invariant len(s.readers) - old(len(s.readers)) == len(readers)
+//@ end
 
 //@ # ---- snapshots keep their version alive (C02) ---------------------------------------------------------------
 //@ # a version is pinned (Retain) in the same critical section in which it is read as the current one, so that
